@@ -40,6 +40,8 @@ Project(log) == Collapse(SelectSeq([q \in 1..Len(log) |-> StepName(log[q])], LAM
 \*  e.old, e.new : the versions the run went from / to (for the hook environment)
 \* e.objs (optional): name and argv of the tag / push commands; the tag step and the tag-pushing step name the new tag, a git push names the remote
 ObjOK(o, e) == /\ (o.name \in {"tag", "tag_light", "push_tag"} => \E q \in 1..Len(o.argv) : o.argv[q] = e.new)
+               \* the commit step commits what the staging steps staged: `git commit --message <text>` and nothing that widens it (--all, a pathspec)
+               /\ (e.case.vcs = "git" /\ o.name = "commit" => Len(o.argv) = 4 /\ SubSeq(o.argv, 1, 3) = <<"git", "commit", "--message">>)
                /\ (e.case.vcs = "git" /\ o.name \in {"push", "push_tag"} => \E q \in 1..Len(o.argv) : o.argv[q] = e.remote_name)
 StepsVerdict(e) ==
   LET x == Expected(e.case) got == Project(e.log) IN
